@@ -36,7 +36,7 @@ rc, out = run("git apply %s" % os.path.join(d, "patch.diff"), cwd="/repo"); asse
 det = {}
 try:
     for c in checks:
-        rc, out = run("./check %s --tier quick" % c, cwd=ROOT, timeout=7200)
+        rc, out = run("./check %s --tier quick" % c, cwd=ROOT, env=dict(G3DVC_EVIDENCE_DIR=os.path.join(ROOT, "work", "evidence-of-changed-trees")), timeout=7200)
         viol = [l for l in out.splitlines() if l.startswith("VIOLATION")]
         und = [l for l in out.splitlines() if l.startswith("UNDECIDED") or l.startswith("ENGINE-ERROR")]
         det[c] = dict(exit=rc, violations=len(viol), first=[v[:260] for v in viol[:3]], undecided=len(und), undecided_first=[u[:200] for u in und[:2]], summary=out.strip().splitlines()[-1][:200] if out.strip() else "")
